@@ -279,6 +279,28 @@ def together_readded_history():
     return specs, evos
 
 
+def meta_indexes_twice_history():
+    """Meta.indexes of one model grows in two consecutive versions (each evolution carries the complete list): a
+    direct upgrade across both ends with the last list, like every other path"""
+    def fld(name, t, related=None, **attrs):
+        return {'name': name, 'type': t, 'attrs': attrs, 'related': related}
+
+    def book(ix):
+        return {'apps': [{'id': 'vapp', 'models': [
+            {'name': 'Book', 'table': 'vapp_book', 'unique_together': [], 'index_together': [], 'indexes': ix,
+             'constraints': [], 'fields': [fld('id', 'AutoField', primary_key=True),
+                                           fld('title', 'CharField', max_length=20, null=True),
+                                           fld('year', 'IntegerField', null=True),
+                                           fld('pages', 'IntegerField', null=True)]}]}]}
+    t_ix = {'fields': ['title'], 'name': 'vapp_book_title_idx'}
+    y_ix = {'fields': ['year'], 'name': 'vapp_book_year_idx'}
+    p_ix = {'fields': ['pages'], 'name': 'vapp_book_pages_idx'}
+    specs = [book([]), book([t_ix]), book([t_ix, y_ix]), book([y_ix, p_ix])]
+    cm = lambda *ix: {'t': 'ChangeMeta', 'model': 'Book', 'prop': 'indexes', 'py_value': [dict(x) for x in ix]}
+    evos = [[cm(t_ix)], [cm(t_ix, y_ix)], [cm(y_ix, p_ix)]]
+    return specs, evos
+
+
 def new_model_history():
     """a model that first appears in a later version (with a foreign key and an indexed column: its indexes are
     deferred SQL of the model creation), next to ordinary evolutions of an older model"""
@@ -372,7 +394,7 @@ def muts_of(e):
     return [m for _, _, ms in parts(0, e) for m in ms]
 
 
-SCRIPTED = [rename_beside_together_history, together_readded_history, scripted_history, two_app_history, signature_only_history, new_model_history, readd_history, rename_model_history, reuse_after_rename_history, twice_changed_history,
+SCRIPTED = [rename_beside_together_history, together_readded_history, meta_indexes_twice_history, scripted_history, two_app_history, signature_only_history, new_model_history, readd_history, rename_model_history, reuse_after_rename_history, twice_changed_history,
             together_with_relation_history]
 
 
